@@ -47,6 +47,15 @@ def check(run):
     need(len(rets) == 1, "anchor: node_to_dict has one return")
     d = rets[0].value
     enc = {}
+    if isinstance(d, ast.Name):
+        # the record built step by step: name = {...} followed by name["key"] = value
+        acc = d.id
+        for st_ in n2d.node.body:
+            tgt_ = st_.targets[0] if isinstance(st_, ast.Assign) and len(st_.targets) == 1 else (st_.target if isinstance(st_, ast.AnnAssign) and st_.value is not None else None)
+            if isinstance(tgt_, ast.Name) and tgt_.id == acc and isinstance(st_.value, (ast.Dict, ast.Call)):
+                d = st_.value
+            elif isinstance(tgt_, ast.Subscript) and common.is_name(tgt_.value, acc):
+                enc[prog.try_fold(jm, tgt_.slice)] = st_.value
     if isinstance(d, ast.Dict):
         for k, v in zip(d.keys, d.values):
             enc[prog.try_fold(jm, k)] = v
@@ -66,6 +75,19 @@ def check(run):
             ok = isinstance(v, ast.ListComp) and len(v.generators) == 1 and common.is_attr(v.generators[0].iter, P, "children") and not v.generators[0].ifs \
                 and isinstance(v.elt, ast.Call) and prog.callee(jm, n2d, v.elt).func is n2d and len(v.elt.args) == 1 and \
                 common.is_name(v.elt.args[0], v.generators[0].target.id)
+            if not ok and isinstance(v, ast.Name):
+                # the same list filled by a loop: acc = []; for child in node.children: acc.append(node_to_dict(child))
+                inits = [st_ for st_ in n2d.node.body if isinstance(st_, (ast.Assign, ast.AnnAssign)) and common.is_name(st_.targets[0] if isinstance(st_, ast.Assign) else st_.target, v.id)]
+                loops_ = [st_ for st_ in n2d.node.body if isinstance(st_, ast.For) and any(isinstance(x, ast.Name) and x.id == v.id for x in ast.walk(st_))]
+                other_ = [x for x in own_nodes(n2d.node) if isinstance(x, ast.Call) and isinstance(x.func, ast.Attribute) and common.is_name(x.func.value, v.id) and x.func.attr != "append"]
+                if len(inits) == 1 and isinstance(inits[0].value, ast.List) and not inits[0].value.elts and len(loops_) == 1 and not other_:
+                    lp_ = loops_[0]
+                    b_ = lp_.body
+                    ok = common.is_attr(lp_.iter, P, "children") and isinstance(lp_.target, ast.Name) and len(b_) == 1 and isinstance(b_[0], ast.Expr) and \
+                        isinstance(b_[0].value, ast.Call) and isinstance(b_[0].value.func, ast.Attribute) and b_[0].value.func.attr == "append" and \
+                        common.is_name(b_[0].value.func.value, v.id) and len(b_[0].value.args) == 1 and isinstance(b_[0].value.args[0], ast.Call) and \
+                        prog.callee(jm, n2d, b_[0].value.args[0]).func is n2d and len(b_[0].value.args[0].args) == 1 and \
+                        common.is_name(b_[0].value.args[0].args[0], lp_.target.id) and not lp_.orelse
             transforms[k] = "recursive"
         elif src == f"{P}.{k}":
             ok = True
@@ -124,6 +146,17 @@ def check(run):
             if kr == ("identity", "children") and not g.ifs and isinstance(lc.elt, ast.Call) and prog.callee(jm, asn, lc.elt).func is asn:
                 args = lc.elt.args + [k.value for k in lc.elt.keywords]
                 if len(args) == 2 and common.is_name(args[0], g.target.id) and common.is_name(args[1], NV):
+                    ok_ch = True
+                    read.add("children")
+    if not ok_ch and NV:
+        # the same rebuilt in place: for c in d['children']: node.children.append(as_node(c, node))
+        for n in asn.node.body:
+            if isinstance(n, ast.For) and key_read(n.iter) == ("identity", "children") and isinstance(n.target, ast.Name) and len(n.body) == 1 and not n.orelse and \
+                    isinstance(n.body[0], ast.Expr) and isinstance(n.body[0].value, ast.Call) and norm_src(n.body[0].value.func) == f"{NV}.children.append" and \
+                    len(n.body[0].value.args) == 1 and isinstance(n.body[0].value.args[0], ast.Call) and prog.callee(jm, asn, n.body[0].value.args[0]).func is asn:
+                c_ = n.body[0].value.args[0]
+                args_ = c_.args + [k_.value for k_ in c_.keywords]
+                if len(args_) == 2 and common.is_name(args_[0], n.target.id) and common.is_name(args_[1], NV):
                     ok_ch = True
                     read.add("children")
     run.ob("R1-fields", "json_conversion.as_node/children", ok_ch, w(asn.node, jm),
